@@ -101,6 +101,12 @@ thread_local! {
     pub static LAST_PANIC_LOC: std::cell::RefCell<String> = std::cell::RefCell::new(String::new());
 }
 
+/// Where shard results are written (`--out`); also the base name of the crash-capture file.
+pub static OUT_PATH: std::sync::Mutex<Option<String>> = std::sync::Mutex::new(None);
+/// Hook installed by the schedule explorer: called with (location, message) at panic time,
+/// i.e. before unwinding, so a failure is on disk even if the process aborts while unwinding.
+pub static PANIC_TAP: std::sync::Mutex<Option<Box<dyn Fn(&str, &str) + Send + Sync>>> = std::sync::Mutex::new(None);
+
 /// Silence the default panic printer but remember where the panic happened.
 pub fn install_panic_hook() {
     std::panic::set_hook(Box::new(|info| {
@@ -112,7 +118,19 @@ pub fn install_panic_hook() {
                 format!("{}:{}", f, l.line())
             })
             .unwrap_or_default();
-        LAST_PANIC_LOC.with(|c| *c.borrow_mut() = loc);
+        LAST_PANIC_LOC.with(|c| *c.borrow_mut() = loc.clone());
+        if let Ok(g) = PANIC_TAP.try_lock() {
+            if let Some(f) = g.as_ref() {
+                let msg = if let Some(s) = info.payload().downcast_ref::<String>() {
+                    s.clone()
+                } else if let Some(s) = info.payload().downcast_ref::<&str>() {
+                    s.to_string()
+                } else {
+                    String::new()
+                };
+                f(&loc, &msg);
+            }
+        }
         if std::env::var("MC_PANIC_VERBOSE").is_ok() {
             eprintln!("panic: {}", info);
         }
